@@ -287,7 +287,14 @@ type vskT struct {
 func H_C05_skipped_member(t *verifrt.T) {
 	n := t.Param("N")
 	var val []byte
-	switch t.Choice("form", 3) {
+	truncated := false
+	switch t.Choice("form", 5) {
+	case 3: // input ends inside a string of a skipped object
+		val = append([]byte(`{"k":"`), t.Bytes("str", 2)...)
+		truncated = true
+	case 4: // input ends inside a string of a skipped array
+		val = append([]byte(`[{"k":1},"`), t.Bytes("str", 2)...)
+		truncated = true
 	case 0: // any bytes
 		val = t.Bytes("val", n)
 	case 1: // an object holding a string of two free bytes (escapes inside skipped objects)
@@ -301,7 +308,9 @@ func H_C05_skipped_member(t *verifrt.T) {
 		t.Assume(val[i] != 0)
 	}
 	doc := append([]byte(`{"x":`), val...)
-	doc = append(doc, `,"a":1}`...)
+	if !truncated {
+		doc = append(doc, `,"a":1}`...)
+	}
 	var v vskT
 	err := Unmarshal(doc, &v)
 	accepted := err == nil
